@@ -91,6 +91,44 @@ def run(ctx):
             report("Repair differs from the proved model (%s): impl=%s model=%s" % (c["desc"], x[:100], y[:100]), replay, nf=True)
         if px["changed"] and px["res"] != "ok" and len(ctx.samples) < 4:
             ctx.sample({"damage": c["desc"], "repair": x.split(" trace=")[0], "written": sorted(px["changed"])})
+    # stale recovery files: a second set with the same names, lengths and first 16 KiB (hence the same file ids
+    # and recovery-set id) but different content beyond; its volumes beside the first set's index are accepted
+    # by every packet-level check, reconstruction yields wrong bytes, and only the whole-file hash can stop the write
+    stale = []
+    for S_, n_ in ((2000, 20000), (4096, 16384 + 4096 + 5)):
+        head = L.gen_content(rng, "random", 16384)
+        fa = head + L.gen_content(rng, "random", n_ - 16384)
+        fb = head + L.gen_content(rng, "random", n_ - 16384)
+        A = P.PSet({"big.bin": fa, "small.txt": b"hello world"}, S_, 2, g=2, tag="stale-A")
+        B = P.PSet({"big.bin": fb, "small.txt": b"hello world"}, S_, 2, g=2, tag="stale-B")
+        stale.append((A, B))
+    cr = P.create_all(ctx, vh, model, [x for ab in stale for x in ab])
+    for ps, line, i, m in cr:
+        if i != m:
+            report("Create differs from the model (%s)" % ps.tag, {"lines": [line], "impl": i[:1500], "model": m[:1500], "class": {"op": "create"}}, nf=True)
+    slines = []
+    for A, B in stale:
+        if A.created is None or B.created is None:
+            continue
+        for dbl in (False, True):
+            fs = dict(A.created)
+            for v in B.volumes:
+                fs[v] = B.created[v]
+            d = bytearray(fs[A.paths["big.bin"]])
+            d[16384 + 100] ^= 0xff
+            fs[A.paths["big.bin"]] = bytes(d)
+            slines.append((A, L.line_repair("p2", "mem", A.index, dbl, 1, fs), fs))
+    si, sm = P.run_both(ctx, vh, model, [x[1] for x in slines])
+    for (A, line, fs), x, y in zip(slines, si, sm):
+        px = L.parse_result(x)
+        ctx.count("stale|" + L.hx(L.md5(line.encode())), True)
+        dist["stale_volume_cases"] = dist.get("stale_volume_cases", 0) + 1
+        bad = [p for p, dd in px["changed"].items() if dd != A.files.get(p[len(P.DIR) + 1:])]
+        replay = {"lines": [line], "mode": "mem", "desc": "stale recovery files of a sibling set", "impl": [x[:1500]], "model": [y[:1500]], "class": {"damage": "stale-volume"}}
+        if bad:
+            report("Repair wrote bytes that are not the original (stale recovery files accepted): %s result %s" % (bad, px["res"]), replay)
+        elif x != y:
+            report("Repair with stale recovery files differs from the model: impl=%s model=%s" % (x[:100], y[:100]), replay, nf=True)
     extra = {"input_distribution": dist}
     try:
         from . import par1common
